@@ -58,9 +58,10 @@ def run(ctx, rep: Report, deep: bool = False):
     budget = 400 if (ctx.quick and not deep) else 4000
     for nt in range(1, 7):
         for rep_i in range(1 if ctx.quick and not deep else 4):
-            name = rng.choice(FC.NAMES)  # S120: bin names with blanks, as ripping tools write them
+            k_sheet = (nt - 1) + 6 * rep_i
+            name = FC.NAMES[k_sheet % len(FC.NAMES)]  # S120: bin names with blanks, as ripping tools write them (every run has some)
             # S124: times of 100 minutes and more (three-digit minute fields), also straddling 99:59 -> 100:00
-            first = rng.choice([None, None, 100 * 60 * 75 - rng.randint(0, 60), rng.randint(100 * 60 * 75, 999 * 60 * 75)])
+            first = [None, 100 * 60 * 75 - rng.randint(0, 60), None, rng.randint(100 * 60 * 75, 999 * 60 * 75)][k_sheet % 4]
             lines, _ = FC.canonical(rng, nt, name=name, first=first)
             if first is not None:
                 rep.feat("minutes_100_and_more")
